@@ -58,8 +58,14 @@ pub struct InlineCase {
     pub hash_seed: u64,
 }
 
+/// File names use every kind of character TeX accepts in a name (tex.web 526: any character
+/// token up to "other", i.e. also `_ & $ # ^`), and a file named by their common prefix exists too,
+/// so that a name scan that stops early reads a different, existing file.
+const FILE_NAMES: [&str; 6] = ["fa", "f_b", "fc", "f&d", "f$e", "f^g"];
+const PREFIX_FILE: (&str, &str) = ("f.tex", "TRUNCATED\n");
+
 fn file_name(i: usize) -> String {
-    format!("f{}", (b'a' + i as u8) as char)
+    FILE_NAMES[i % FILE_NAMES.len()].to_string()
 }
 
 fn render_piece(p: &Piece) -> String {
@@ -204,6 +210,10 @@ fn inline_job(case: &InlineCase, lines: Vec<String>) -> Job {
                 .enumerate()
                 .filter(|(_, f)| !f.missing)
                 .map(|(i, f)| (format!("{}.tex", file_name(i)), render_file(f).into_bytes()))
+                .chain(std::iter::once((
+                    PREFIX_FILE.0.to_string(),
+                    PREFIX_FILE.1.as_bytes().to_vec(),
+                )))
                 .collect(),
             terminal: vec![],
             fs_read_faults: vec![],
@@ -685,9 +695,15 @@ impl StreamModel {
     }
 }
 
+const STREAM_FILE_NAMES: [&str; 4] = ["s0", "s_1", "s&2", "s$3"];
+
+fn stream_file_name(i: usize) -> String {
+    STREAM_FILE_NAMES[i % STREAM_FILE_NAMES.len()].to_string()
+}
+
 fn sop_text(op: &SOp) -> String {
     match op {
-        SOp::OpenIn { n, file } => format!("\\openin{n}=s{file} "),
+        SOp::OpenIn { n, file } => format!("\\openin{n}={} ", stream_file_name(*file)),
         SOp::Read { n, target } => {
             let t = TARGETS[*target as usize];
             format!("\\read{n} to{t}")
@@ -747,7 +763,8 @@ fn stream_job(case: &StreamCase) -> (Job, Vec<(usize, usize)>) {
                 .iter()
                 .enumerate()
                 .filter(|(_, (_, m, _))| !*m)
-                .map(|(i, (c, _, _))| (format!("s{i}.tex"), c.clone().into_bytes()))
+                .map(|(i, (c, _, _))| (format!("{}.tex", stream_file_name(i)), c.clone().into_bytes()))
+                .chain(std::iter::once(("s.tex".to_string(), b"TRUNCATED\n".to_vec())))
                 .collect(),
             terminal: case.terminal.clone(),
             fs_read_faults: vec![],
@@ -756,7 +773,7 @@ fn stream_job(case: &StreamCase) -> (Job, Vec<(usize, usize)>) {
                 .files
                 .iter()
                 .enumerate()
-                .filter_map(|(i, (_, _, f))| f.map(|k| (format!("s{i}.tex"), k)))
+                .filter_map(|(i, (_, _, f))| f.map(|k| (format!("{}.tex", stream_file_name(i)), k)))
                 .collect(),
         },
         clock: Clock::default(),
